@@ -101,6 +101,15 @@ CHECKS["C07"] = dict(
     note="Console reporters show only what -S selects: containment there, equality for -S all. The Lambda handler itself cannot be linked; it is covered via run_checks with its argument pattern.",
     ref="DESIGN.md §6 P-C07")
 
+CHECKS["C12"] = dict(
+    technique="runtime monitoring: batch-vs-singleton differential monitor with hook-observed scope lifetimes",
+    text="Batches of 1-3 rules files that share variable and rule names with different definitions x 2-4 documents differing exactly in the "
+         "queried keys are validated as explicit files in several orders (plain and structured), as directories with -a and -m (explicit mtimes), "
+         "as payload lists, and as multi-case `test` files; every (rules, data) pair's report must equal the report of the pair validated alone and "
+         "the exit status must be the maximum over the pairs. verif-hooks events assert one root scope per pair and no memo hit before a miss in a scope.",
+    note="Reports are compared after removing file names and line/column details. In structured mode compliant/not_applicable are name sets by design.",
+    ref="DESIGN.md §6 P-C12")
+
 PENDING = {}
 
 
